@@ -107,10 +107,13 @@ Theorem int_unop_matches_spec : forall libm op a, in_i32 a ->
   end.
 Proof.
   intros libm op a Ha. destruct op; cbn [spec_ui unop_eval gen_optable ot_ui gen_ui]; auto.
-  (* Neg *) f_equal. f_equal. f_equal.
-  replace ((0 - u32 a) mod two32) with ((- a) mod two32).
-  - rewrite of_u32_mod. reflexivity.
-  - unfold u32. rewrite <- (Zminus_mod_idemp_r 0 a). reflexivity.
+  - (* Neg *) f_equal. f_equal. f_equal.
+    replace ((0 - u32 a) mod two32) with ((- a) mod two32).
+    + rewrite of_u32_mod. reflexivity.
+    + unfold u32. rewrite <- (Zminus_mod_idemp_r 0 a). reflexivity.
+  - (* BitNot *) f_equal. f_equal. f_equal. rewrite wrap32_id.
+    + unfold Z.lnot. lia.
+    + unfold in_i32, I32_MIN, I32_MAX, Z.lnot in *. lia.
 Qed.
 
 (* the float rows: each arithmetic / comparison operator is the IEEE-754 binary32 operation of
